@@ -39,6 +39,32 @@ def _scan():
                     pass
             elif callable(val) and hasattr(val, 'cache_clear'):
                 caches.append(val)
+        # state that lives on functions and classes: mutable default arguments (a list that accumulates across calls), class-
+        # level containers
+        import inspect
+        import types
+        funcs = []
+        for attr, val in list(vars(mod).items()):
+            if isinstance(val, types.FunctionType) and val.__module__ == name:
+                funcs.append((attr, val))
+            elif inspect.isclass(val) and val.__module__ == name:
+                for k, v in list(vars(val).items()):
+                    f = getattr(v, '__func__', v)
+                    if isinstance(f, types.FunctionType):
+                        funcs.append((f'{attr}.{k}', f))
+                    elif isinstance(v, (dict, list, set)) and not k.startswith('__'):
+                        try:
+                            base[(name, f'{attr}.{k}')] = (v, copy.deepcopy(v))
+                        except Exception:
+                            pass
+        for fname, f in funcs:
+            cells = list(f.__defaults__ or ()) + list((f.__kwdefaults__ or {}).values())
+            for i, d in enumerate(cells):
+                if isinstance(d, (dict, list, set)):
+                    try:
+                        base[(name, f'{fname}#default{i}')] = (d, copy.deepcopy(d))
+                    except Exception:
+                        pass
     return base, caches
 
 
